@@ -11,7 +11,11 @@
 //!     is committed (or has none); the refusals are the documented ones;
 //!   * C11 index: after `finish` the index holds exactly the keys changed along the creation chain, each with the
 //!     sequence number of its youngest changer; the log is ascending;
-//!   * C05 iterator: the items of `BeatreeIterator` = disk ⊕ secondary ⊕ primary restricted to the range.
+//!   * C05 iterator: the items of `BeatreeIterator` = disk ⊕ secondary ⊕ primary restricted to the range;
+//!   * C05 / C11 seek (every 8th case, a real store under /dev/shm): a path proof of every key of the universe from a
+//!     session on a chain of real overlays = the reference proof of committed map + changes; the terminal leaf vs the
+//!     Lean `leafFetch`, the nodes at the page boundaries of the path vs the Lean `nodeAt` over `leavesMerge`
+//!     (disk entries of the range, REAL `value_iter` of the range).
 use crate::util::*;
 use nomt::verif_api::{
     beatree_run_iterator, overlay_index, overlay_mark_committed, overlay_page_index, overlay_parent_status, InvalidAncestors, LiveSim, Overlay,
